@@ -164,6 +164,8 @@ func ActionFileCheck(conf ActionFile) error {
 		paramsLenCheck = 0
 	case ActionHostSet:
 		paramsLenCheck = 1
+	case ActionHostSuffixReplace:
+		paramsLenCheck = 2
 	case ActionPathSet, ActionPathPrefixAdd, ActionPathPrefixTrim:
 		paramsLenCheck = 1
 	case ActionQueryAdd, ActionQueryRename:
